@@ -288,7 +288,7 @@ Theorem window_when_rule mapper s now k (e : ev A) : (forall z, e <> Err z) ->
   exists c f,
     x_step (x_window_when (A:=A) (B:=B) mapper) s now (ISrc (S k) e)
     = (fst (fst (ww_arm (A:=A) (B:=B) mapper (WwSt (ww_next s) (S (ww_next s)) (ww_calls s) (ww_closing s)))),
-       [CWin (ww_cur s) Done; CHand (ww_next s) 0] ++ c, f)
+       [CWin (ww_cur s) Done; CHand (ww_next s) 0; CUnsub (S k)] ++ c, f)
     /\ f = snd (ww_arm (A:=A) (B:=B) mapper (WwSt (ww_next s) (S (ww_next s)) (ww_calls s) (ww_closing s))).
 Proof.
   intros He. cbn [x_step x_window_when].
@@ -328,3 +328,62 @@ Theorem window_toggle_error_fanout mapper s now k z :
 Proof. destruct k as [|[|k]]; reflexivity. Qed.
 End Rules.
 
+
+(* ------------------ none of the window machines unsubscribes the main source -- *)
+Section NeverUnsub.
+Context {A B : Type}.
+
+Lemma no_unsub_wins k q (e : ev A) : existsb (is_unsub (W:=A) (B:=B) k) (wins_all q e) = false.
+Proof. induction q; auto. Qed.
+
+Lemma existsb_app_false {X} (f : X -> bool) a b : existsb f a = false -> existsb f b = false -> existsb f (a ++ b) = false.
+Proof. intros Ha Hb. now rewrite existsb_app, Ha, Hb. Qed.
+
+Theorem window_count_never_unsubs count skip k : never_unsubs (x_window_count (A:=A) (B:=B) count skip) k.
+Proof.
+  intros s now i. destruct i as [j [x|z|]|tag| | |]; cbn [x_step x_window_count fst snd]; try reflexivity;
+    try apply no_unsub_wins.
+  unfold wc_on_next.
+  destruct ((0 <=? wc_n s - count + 1) && ((wc_n s - count + 1) mod skip =? 0));
+    [destruct (wc_q s)|]; destruct ((wc_n s + 1) mod skip =? 0); cbn [fst snd];
+    repeat (apply existsb_app_false; try apply no_unsub_wins; try reflexivity).
+Qed.
+
+Theorem window_time_never_unsubs span shift k : never_unsubs (x_window_time (A:=A) (B:=B) span shift) k.
+Proof.
+  intros s now i. destruct i as [j [x|z|]|tag| | |]; cbn [x_step x_window_time fst snd]; try reflexivity;
+    try apply no_unsub_wins.
+  unfold wt_action, wt_create_timer.
+  destruct (wt_is_shift s), (wt_is_span s); cbn [fst snd]; try destruct (wt_q s); try reflexivity;
+    cbn; try destruct (l ++ _); reflexivity.
+Qed.
+
+Theorem window_time_or_count_never_unsubs span count k :
+  never_unsubs (x_window_time_or_count (A:=A) (B:=B) span count) k.
+Proof.
+  intros s now i. unfold wtc_roll, wtc_create_timer.
+  destruct i as [j [x|z|]|tag| | |]; cbn [x_step x_window_time_or_count fst snd]; try reflexivity.
+  - destruct (wtc_n s + 1 =? count); [|reflexivity]. unfold wtc_roll, wtc_create_timer. destruct (wtc_ttag s); reflexivity.
+  - destruct (wtc_tid s =? wtc_wid s); [|reflexivity]. unfold wtc_roll, wtc_create_timer. destruct (wtc_ttag s); reflexivity.
+Qed.
+
+Theorem window_boundaries_never_unsubs k : never_unsubs (x_window_boundaries (A:=A) (B:=B)) k.
+Proof. intros [cur next] now i. destruct i as [[|j] [x|z|]|tag| | |]; reflexivity. Qed.
+
+(* closing selector / toggle: only closing observables (sources >= 1 resp. >= 2) are unsubscribed *)
+Theorem window_when_never_unsubs_source mapper : never_unsubs (x_window_when (A:=A) (B:=B) mapper) 0%nat.
+Proof.
+  intros s now i. destruct i as [[|j] [x|z|]|tag| | |]; cbn [x_step x_window_when fst snd]; try reflexivity;
+    unfold ww_arm; cbn [ww_calls]; destruct (mapper (ww_calls s)); reflexivity.
+Qed.
+
+Theorem window_toggle_never_unsubs_source mapper :
+  never_unsubs (x_window_toggle (A:=A) (B:=B) mapper) 0%nat.
+Proof.
+  intros s now i. destruct i as [[|[|j]] [x|z|]|tag| | |]; cbn [x_step x_window_toggle fst snd]; try reflexivity;
+    try apply no_unsub_wins.
+  - destruct (mapper (wg_calls s)); cbn [fst snd existsb is_unsub]; [reflexivity|]. apply no_unsub_wins.
+  - destruct (wg_find (S (S j)) (wg_open s)); reflexivity.
+  - destruct (wg_find (S (S j)) (wg_open s)); reflexivity.
+Qed.
+End NeverUnsub.
